@@ -26,18 +26,18 @@ import (
 // exclusion monitor (no mutator may run while a block is being processed, and vice versa).
 type v11Source struct {
 	AnySource
-	after      string        // what the producer does after `nblocks` blocks: idle | errblock | close
-	nblocks    int           // blocks sent spontaneously at the start
-	want       chan struct{} // one more block on demand
-	processed  int32
-	inProcess  int32
-	inMutator  int32
-	overlap    string
-	frame      int
-	doneCh     chan struct{} // one token per processed block
-	pulses     bool          // blocks of 24 samples with a pulse on channel 0 (so that triggers fire)
-	keepPub    bool          // keep the processors' publish channels (C17 drains them like the ZMQ goroutines do)
-	zeroBased  bool          // channel numbers start at 0 (generic source default) instead of 1
+	after     string        // what the producer does after `nblocks` blocks: idle | errblock | close
+	nblocks   int           // blocks sent spontaneously at the start
+	want      chan struct{} // one more block on demand
+	processed int32
+	inProcess int32
+	inMutator int32
+	overlap   string
+	frame     int
+	doneCh    chan struct{} // one token per processed block
+	pulses    bool          // blocks of 24 samples with a pulse on channel 0 (so that triggers fire)
+	keepPub   bool          // keep the processors' publish channels (C17 drains them like the ZMQ goroutines do)
+	zeroBased bool          // channel numbers start at 0 (generic source default) instead of 1
 }
 
 func v11New(after string, nblocks int) *v11Source {
@@ -229,11 +229,11 @@ func init() {
 
 type v11Req struct {
 	zeroBased bool
-	name    string
-	wantErr bool // error expected (invalid argument, I/O fault, unsupported)
-	either  bool // the statement does not fix whether this is an error
-	setup   func(e *v11Env)
-	call    func(e *v11Env) error
+	name      string
+	wantErr   bool // error expected (invalid argument, I/O fault, unsupported)
+	either    bool // the statement does not fix whether this is an error
+	setup     func(e *v11Env)
+	call      func(e *v11Env) error
 }
 
 type v11Env struct {
